@@ -2147,6 +2147,8 @@ class HDKey(Key):
                 index = int(item)
                 if index < 0:
                     raise BKeyError("Could not parse path. Index must be a positive integer.")
+                if hardened and index >= 0x80000000:
+                    raise BKeyError("Could not parse path. Index of a hardened key must be below 0x80000000")
                 if first_public or not key.is_private:
                     if hardened:
                         raise BKeyError("Cannot derive hardened key from a public key")
